@@ -147,6 +147,7 @@ type world struct {
 	store  *faultCtl
 	hs     []*hybrid.Storage
 	nodes  []*node
+	pre    func(op, key string) // optional hook: a task arrives at a tier write (see selCache.pre)
 }
 
 // newWorld builds nNodes service stacks over one store. gated=false leaves the gate nil
@@ -172,7 +173,11 @@ func newWorldWith(nNodes int, cfg *services.ConnectionCodeServiceConfig, gated b
 	}
 	wrap := func(c *vkit.GateCache) stypes.CacheStorage {
 		if sel != nil {
-			return &selCache{GateCache: c, sel: sel}
+			return &selCache{GateCache: c, sel: sel, pre: func(op, k string) {
+				if w.pre != nil {
+					w.pre(op, k)
+				}
+			}}
 		}
 		return c
 	}
